@@ -169,28 +169,26 @@ func (t *SymbolTable) Verify() error {
 
 // ensureSingleDefs ensures every terminal has one and only one definition.
 func (t *SymbolTable) ensureSingleDefs() error {
-	var errs error
+	var msgs []string
 
 	for a, e := range t.terminals.table.All() {
 		if count := len(e.definitions); count == 0 {
-			errs = errors.Append(errs, fmt.Errorf("no definition for terminal %s", a))
+			msgs = append(msgs, fmt.Sprintf("no definition for terminal %s", a))
 		} else if count > 1 {
 			poses := generic.Transform(e.definitions, func(def *TerminalDef) string {
 				return fmt.Sprintf("  %s", def.Pos)
 			})
 
-			errs = errors.Append(errs,
-				fmt.Errorf("multiple definitions for terminal %s:\n%s", a, strings.Join(poses, "\n")),
-			)
+			msgs = append(msgs, fmt.Sprintf("multiple definitions for terminal %s:\n%s", a, strings.Join(poses, "\n")))
 		}
 	}
 
-	return errs
+	return sortedErrors(msgs)
 }
 
 // ensureDistinctDefs ensures every terminal definition has a distinct value.
 func (t *SymbolTable) ensureDistinctDefs() error {
-	var errs error
+	var msgs []string
 
 	reverse := make(map[string][]*TerminalDef)
 	for _, e := range t.terminals.table.All() {
@@ -206,10 +204,23 @@ func (t *SymbolTable) ensureDistinctDefs() error {
 				return fmt.Sprintf("  %s: %s", def.Pos, def.Terminal)
 			})
 
-			errs = errors.Append(errs,
-				fmt.Errorf("multiple definitions with the same value: %q\n%s", val, strings.Join(poses, "\n")),
-			)
+			sort.Quick(poses, generic.NewCompareFunc[string]())
+
+			msgs = append(msgs, fmt.Sprintf("multiple definitions with the same value: %q\n%s", val, strings.Join(poses, "\n")))
 		}
+	}
+
+	return sortedErrors(msgs)
+}
+
+// sortedErrors combines messages collected while iterating over a hash table (in no particular order)
+// into one error that lists them in a fixed order.
+func sortedErrors(msgs []string) error {
+	var errs error
+
+	sort.Quick(msgs, generic.NewCompareFunc[string]())
+	for _, msg := range msgs {
+		errs = errors.Append(errs, fmt.Errorf("%s", msg))
 	}
 
 	return errs
